@@ -10,7 +10,7 @@ from vlib.core import Leg, Result, exc_failure, excluded_hazards
 
 ID = 'C18'
 RULE = ('cases: scripts of 1-3 statements: grammar statements (SELECT/INSERT/UPDATE/DELETE/CREATE [OR REPLACE]/DROP/ALTER, WITH [RECURSIVE] 1-3 CTEs followed by '
-        'each DML) and one-line statements led by another DML/DDL word or by a non-DML/DDL word, parenthesis or name (expected UNKNOWN); leg cte-names: every dictionary word that is not a DML/DDL/CTE keyword (minus GO, WHERE, AS, RECURSIVE) as the name of a CTE in three templates, enumerated completely; each statement gets a '
+        'each DML) and one-line statements led by another DML/DDL word or by a non-DML/DDL word, parenthesis or name (expected UNKNOWN); leg long-statements: WITH/INSERT/UPDATE/CREATE statements with 300-5000 list items or rows (up to ~40 000 tokens), enumerated; leg cte-names: every dictionary word that is not a DML/DDL/CTE keyword (minus GO, WHERE, AS, RECURSIVE) as the name of a CTE in three templates, enumerated completely; each statement gets a '
         'drawn prefix of whitespace, block/line comments and hints (bodies contain other statements\' keywords), drawn per-word casing, drawn inner whitespace of '
         'multi-word keywords and comments at any later gap; expected string comes from the generator\'s role tag / dictionary data. non-trivial: non-empty prefix '
         'or non-canonical casing, and statement of >=6 lexemes; distinct by script text')
@@ -279,7 +279,29 @@ def check_cte_name(case):
     return res
 
 
-LEGS = [Leg('cte-names', check=check_cte_name, enumerate=_cte_names, exhaustive=True),
+def _long_statements(tier):
+    """statements of thousands of tokens: the answer does not depend on what follows the leading keyword, however long it is"""
+    sizes = [300, 1300, 2500, 3400, 5000] + ([12000] if tier != 'quick' else [])
+    for n in sizes:
+        ids = ', '.join(str(i) for i in range(n))
+        rows = ',\n'.join('(%d, %d)' % (i, i * i) for i in range(n))
+        yield {'text': 'with old as (select id from t where ts < 5) delete from t where id in (%s)' % ids, 'expected': 'DELETE', 'word': n}
+        yield {'text': '/* load */ With src As (Select max(id) As m From seq) Insert Into t (a, b) Values\n%s' % rows, 'expected': 'INSERT', 'word': n}
+        yield {'text': 'WITH a AS (SELECT 1), b AS (SELECT 2) UPDATE t SET x = 1 WHERE id IN (%s)' % ids, 'expected': 'UPDATE', 'word': n}
+        yield {'text': 'insert into t (a, b) values\n%s' % rows, 'expected': 'INSERT', 'word': n}
+        yield {'text': 'create table t as select %s from u' % ids, 'expected': 'CREATE', 'word': n}
+
+
+def check_long_statement(case):
+    res = check_cte_name(case)
+    res.key = [case['text'][:60], case['word']]
+    res.labels = ['long-statement']
+    res.sample = {'text': case['text'][:80], 'items': case['word']}
+    return res
+
+
+LEGS = [Leg('long-statements', check=check_long_statement, enumerate=_long_statements, exhaustive=True, max_shards=8),
+        Leg('cte-names', check=check_cte_name, enumerate=_cte_names, exhaustive=True),
         Leg('tight-follow', check=check_tight_follow, enumerate=tight_follow_enum, exhaustive=True, max_shards=4),
         Leg('tight-paren', check=check_tight, strategy=lambda tier: tight_paren_cases(), examples={'quick': 300, 'thorough': 3000}, hazard_leg=True),
         Leg('main', check=check, strategy=lambda tier: cases(False), examples={'quick': 8000, 'thorough': 200000})]
